@@ -355,6 +355,109 @@ def check_dict_to_mismatch(ctx):
               examined=n, construct="testtools.matchers._dict:_dict_to_mismatch::entries")
 
 
+RUN_AS_WRITTEN = ("Not", "Annotate", "AfterPreprocessing", "MatchesAny", "AnyMatch", "MatchesAll", "AllMatch", "MatchesListwise", "MatchesStructure", "MatchesAllDict",
+                  "_MatchCommonKeys", "_SubDictOf", "_SuperDictOf", "_CombinedMatcher", "MatchesDict", "ContainsDict", "ContainedByDict", "Raises")
+
+
+def check_truth_tables(ctx):
+    """Combinators built over scripted component matchers and run as written (ttsa.rules.resultmodel): for every
+    combination of component verdicts the combinator's verdict is None exactly when its declared truth function says so,
+    and otherwise an object (never a bool, a string or a collection)."""
+    import itertools
+    from . import resultmodel as rm
+    from ..objects import is_inst
+    A, B = ("sym", "value a"), ("sym", "value b")
+    M1, M2 = ("wobj", "m1"), ("wobj", "m2")
+    keys = [("m1", A), ("m1", B), ("m2", A), ("m2", B)]
+
+    def scenario(table, lacks=(), fn_answer=None, module="testtools.matchers"):
+        def oracle(n, pos, kw):
+            who, _, meth = n.partition(".")
+            if meth == "match" and who in ("m1", "m2"):
+                return [("val", NONE if table.get((who, pos[0] if pos else None), table.get("otherwise")) else ("wobj", f"mismatch_of_{who}"))]
+            if meth == "describe":
+                return [("val", ("const", "differs"))]
+            if meth == "get_details":
+                return [("val", ("kwdict", ()))]
+            if n == "fn.__call__":
+                return [fn_answer] if fn_answer is not None else [("val", B)]
+            return None
+        return rm.Scenario(ctx, module=module, accepting=("m1", "m2", "mismatch_of_m1", "mismatch_of_m2", "obj", "obj2", "fn"), oracle=oracle, lacks=set(lacks),
+                           attrs={"self": ("self",), "obj.x": A, "obj.y": B, "obj2.x": NONE, "obj2.y": B})
+
+    def t(who, v):
+        return lambda tb: tb[(who, v)]
+    specs = [
+        ("Not", "Not(m1).match(a)", lambda tb: not tb[("m1", A)], [("m1", A)]),
+        ("Annotate", "Annotate('a note', m1).match(a)", t("m1", A), [("m1", A)]),
+        ("AfterPreprocessing", "AfterPreprocessing(fn, m1).match(a)", t("m1", B), [("m1", B)]),   # fn(a) is b
+        ("MatchesAll", "MatchesAll(m1, m2).match(a)", lambda tb: tb[("m1", A)] and tb[("m2", A)], [("m1", A), ("m2", A)]),
+        ("MatchesAll", "MatchesAll(m1, m2, first_only=True).match(a)", lambda tb: tb[("m1", A)] and tb[("m2", A)], [("m1", A), ("m2", A)]),
+        ("MatchesAny", "MatchesAny(m1, m2).match(a)", lambda tb: tb[("m1", A)] or tb[("m2", A)], [("m1", A), ("m2", A)]),
+        ("AllMatch", "AllMatch(m1).match([a, b])", lambda tb: tb[("m1", A)] and tb[("m1", B)], [("m1", A), ("m1", B)]),
+        ("AllMatch", "AllMatch(m1).match([])", lambda tb: True, []),
+        ("AnyMatch", "AnyMatch(m1).match([a, b])", lambda tb: tb[("m1", A)] or tb[("m1", B)], [("m1", A), ("m1", B)]),
+        ("AnyMatch", "AnyMatch(m1).match([])", lambda tb: False, []),
+        ("MatchesListwise", "MatchesListwise([m1, m2]).match([a, b])", lambda tb: tb[("m1", A)] and tb[("m2", B)], [("m1", A), ("m2", B)]),
+        ("MatchesListwise", "MatchesListwise([m1, m2]).match([a])", lambda tb: False, [("m1", A)]),
+        ("MatchesListwise", "MatchesListwise([m1]).match([a, b])", lambda tb: False, [("m1", A)]),
+        ("MatchesStructure", "MatchesStructure(x=m1, y=m2).match(obj)", lambda tb: tb[("m1", A)] and tb[("m2", B)], [("m1", A), ("m2", B)]),
+        ("MatchesStructure", "MatchesStructure(x=m1, y=m2).match(obj2)", lambda tb: tb[("m1", NONE)] and tb[("m2", B)], [("m1", NONE), ("m2", B)]),   # obj2.x is None
+        ("MatchesAllDict", "MatchesAllDict({'one': m1, 'two': m2}).match(a)", lambda tb: tb[("m1", A)] and tb[("m2", A)], [("m1", A), ("m2", A)]),
+        ("MatchesDict", "MatchesDict({'k1': m1, 'k2': m2}).match({'k1': a, 'k2': b})", lambda tb: tb[("m1", A)] and tb[("m2", B)], [("m1", A), ("m2", B)]),
+        ("MatchesDict", "MatchesDict({'k1': m1, 'k2': m2}).match({'k1': a})", lambda tb: False, [("m1", A)]),
+        ("MatchesDict", "MatchesDict({'k1': m1}).match({'k1': a, 'k2': b})", lambda tb: False, [("m1", A)]),
+        ("ContainsDict", "ContainsDict({'k1': m1}).match({'k1': a, 'k2': b})", t("m1", A), [("m1", A)]),
+        ("ContainsDict", "ContainsDict({'k1': m1, 'k2': m2}).match({'k1': a})", lambda tb: False, [("m1", A)]),
+        ("ContainedByDict", "ContainedByDict({'k1': m1, 'k2': m2}).match({'k1': a})", t("m1", A), [("m1", A)]),
+        ("ContainedByDict", "ContainedByDict({'k1': m1}).match({'k1': a, 'k2': b})", lambda tb: False, [("m1", A)]),
+    ]
+    for cname, expr, want, used in specs:
+        problems = set()
+        n = 0
+        for bits in itertools.product((True, False), repeat=len(used)):
+            table = {k: True for k in keys}
+            table.update(dict(zip(used, bits)))
+            res = scenario(table, module="testtools.matchers._dict" if cname == "MatchesAllDict" else "testtools.matchers").run(
+                "def scenario(m1, m2, a, b, obj, obj2, fn):\n    return " + expr + "\n", m1=M1, m2=M2, a=A, b=B, obj=("wobj", "obj"), obj2=("wobj", "obj2"), fn=("wobj", "fn"))
+            n += len(res)
+            said = ", ".join(f"{w}.match({'a' if v == A else 'b' if v == B else 'None'}) {'matches' if table[(w, v)] else 'mismatches'}" for w, v in used) or "no component is asked"
+            if not res:
+                problems.add(f"[{said}] the run was not followed to its end")
+            for r in res:
+                if r.kind != "val":
+                    problems.add(f"[{said}] match() raises {r.value!r}")
+                    continue
+                is_none = r.value == NONE
+                if is_none != bool(want(table)):
+                    problems.add(f"[{said}] match() returns {'None' if is_none else 'a mismatch'}; the declared verdict is {'None' if want(table) else 'a mismatch'}")
+                if not is_none and not (is_inst(r.value) or (isinstance(r.value, tuple) and r.value[:1] in (("wobj",), ("new",)))):
+                    problems.add(f"[{said}] match() returns {r.value!r}: neither None nor a mismatch object")
+        cls = [c for c in matcher_classes(ctx) if c.name == cname]
+        anchor = cls[0].node if cls else None
+        if anchor is None:
+            raise AnalysisError(f"anchor vanished: matcher class {cname}")
+        ctx.check("R-TRUTH-TABLE", f"{expr}: None exactly when the declared truth function of the component verdicts holds", anchor, not problems, "; ".join(sorted(problems))[:900],
+                  examined=n, construct=f"{cls[0].module.name}:{cname}::{expr}")
+    # Raises: the callable's exception is matched; returning is a mismatch; an exception that is not an Exception propagates
+    for label, answer, matcher_says, want in (("the callable returns", ("val", A), True, "mismatch"), ("the callable raises an Exception the matcher accepts", ("exc", ("exc", "ValueError", "fn")), True, "none"),
+                                              ("the callable raises an Exception the matcher rejects", ("exc", ("exc", "ValueError", "fn")), False, "mismatch"),
+                                              ("the callable raises KeyboardInterrupt, which the matcher does not match", ("exc", ("exc", "KeyboardInterrupt", "fn")), False, "propagates"),
+                                              ("the callable raises KeyboardInterrupt and the matcher matches it", ("exc", ("exc", "KeyboardInterrupt", "fn")), True, "none")):
+        table = {"otherwise": matcher_says}   # (whatever exc_info the matcher is shown, it answers the same)
+        sc = scenario(table, fn_answer=answer)
+        res = sc.run("def scenario(m1, fn):\n    return Raises(m1).match(fn)\n", m1=M1, fn=("wobj", "fn"))
+        problems = set()
+        for r in res:
+            got = "propagates" if r.kind == "exc" else "none" if r.value == NONE else "mismatch"
+            if got != want:
+                problems.add(f"match() {'raises ' + repr(r.value) if r.kind == 'exc' else 'returns None' if r.value == NONE else 'returns a mismatch'}; expected {want}")
+        cls = [c for c in matcher_classes(ctx) if c.name == "Raises"][0]
+        ctx.check("R-TRUTH-TABLE", f"Raises(matcher).match(callable): {label} -> {want}", cls.node, bool(res) and not problems, "; ".join(sorted(problems)) or "no path", examined=len(res),
+                  construct=f"{cls.module.name}:Raises::{label}")
+    ctx.floor("R-TRUTH-TABLE", 20, "combinator expressions")
+
+
 def run(ctx):
     ctx.rule("R-RETURN-KIND", "match() returns None, a Mismatch or a delegate's verdict -- never bool / text / collection")
     ctx.rule("R-TRUTH-TABLE", "combinator verdicts are the declared truth function of their components' verdicts")
@@ -372,13 +475,15 @@ def run(ctx):
         f = c.methods.get("match")
         if f is None or classes.is_abstract_stub(f):
             continue
+        if c.name in RUN_AS_WRITTEN:
+            continue   # (what match() returns is read off the runs of R-TRUTH-TABLE: None or a mismatch object, nothing else)
         ctx.analysed(f)
         kinds = function_return_kinds(ctx, c.module, f)
         bad = kinds - allowed
         ctx.check("R-RETURN-KIND", f"{c.name}.match returns {sorted(kinds)}", f, not bad,
                   f"{c.name}.match can return {sorted(bad)}: callers test the verdict with `is None` / truthiness and expect a Mismatch object",
                   construct=f"{c.module.name}:{c.name}.match::kinds")
-    ctx.floor("R-RETURN-KIND", 38, "match() implementations")
+    ctx.floor("R-RETURN-KIND", 24, "match() implementations")
     # callbacks handed to on_deferred_result obey the same rule
     tm = ctx.repo.module("testtools.twistedsupport._matchers")
     for c in [k for k in classes.all if k.module.name == tm.name and not k.external]:
@@ -389,56 +494,7 @@ def run(ctx):
                           f"callback {c.name}.{mname} returns {sorted(kinds - allowed)}", construct=f"{c.module.name}:{c.name}.{mname}::kinds")
 
     # ------------------------------------------------------------------ truth tables
-    n_states = 0
-    for name, kind in sorted(SPEC.items()):
-        cands = [c for c in mcls if c.name == name]
-        if len(cands) != 1:
-            raise AnalysisError(f"anchor vanished: combinator class {name}")
-        c = cands[0]
-        results, n = run_truth_table(ctx, c, kind)
-        n_states += n
-        if not results:
-            ctx.check("R-TRUTH-TABLE", f"{name} ({kind}): no exit states", c.node, False, "the abstract run of match() produced no result", construct=f"{c.module.name}:{name}.match::no-states")
-        for ok, why, sig in results:
-            value, draws, any_none, any_mis, inloop = sig
-            label = f"{name} ({kind}): result={'None' if value == NONE else 'Mismatch' if value == MIS else value} draws={'0' if draws == 0 else '1' if draws == 1 else '2+'} some-None={any_none} some-Mismatch={any_mis}{' early-exit' if inloop else ''}"
-            ctx.check("R-TRUTH-TABLE", label, c.methods["match"], ok, f"{name}.match {why}",
-                      construct=f"{c.module.name}:{name}.match::res={'None' if value == NONE else 'Mis' if value == MIS else 'other'} none={any_none} mis={any_mis} early={inloop}")
-    ctx.floor("R-TRUTH-TABLE", 30, "abstract exit signatures")
-    # MatchesStructure delegates to MatchesListwise over lists built in lock-step
-    ms = [c for c in mcls if c.name == "MatchesStructure"]
-    if not ms:
-        raise AnalysisError("anchor vanished: MatchesStructure")
-    f = ms[0].methods["match"]
-    # decided on an abstract run with two registered attributes: the verdict is that of
-    # MatchesListwise([Annotate(a, Ma), Annotate(b, Mb)]).match([value.a, value.b]) -- pairs in lock-step
-    from .. import effects
-    KWS = ("tuple", ("tuple", ("const", "a"), ("matcher", "a")), ("tuple", ("const", "b"), ("matcher", "b")))
-    dom_ = effects.EffectDomain(classes, results={"self.kws.items": [KWS]}, ctors={"Annotate", "MatchesListwise"})
-    res_ = effects.run(ctx, dom_, f, ms[0], {"value": ("arg", "value")})
-    ok = bool(res_)
-    for r in res_:
-        calls_ = [e for e in effects.calls(r) if e[0] == "<MatchesListwise>.match"]
-        if r.kind != "val" or len(calls_) != 1 or r.value != ("ret", "<MatchesListwise>.match", "match"):
-            ok = False
-            continue
-        lw, values = calls_[0][1][0], (calls_[0][1][1] if len(calls_[0][1]) > 1 else None)
-        matchers = lw[2][0] if lw[2] else None
-        want_m = ("tuple", ("new", "Annotate", (("const", "a"), ("matcher", "a")), ()), ("new", "Annotate", (("const", "b"), ("matcher", "b")), ()))
-        want_v = ("tuple", ("attr", ("arg", "value"), ("const", "a")), ("attr", ("arg", "value"), ("const", "b")))
-        if matchers != want_m or values != want_v:
-            ok = False
-    ctx.check("R-TRUTH-TABLE", "MatchesStructure: per-attribute matchers and values built in lock-step, verdict delegated to MatchesListwise", f, ok,
-              "MatchesStructure.match no longer pairs each attribute's matcher with getattr(value, attr) one-to-one", construct=f"{ms[0].module.name}:MatchesStructure.match::lockstep")
-    cm = [c for c in mcls if c.name == "_CombinedMatcher"]
-    if cm:
-        f = cm[0].methods["match"]
-        rets = [r for r in walk_shallow(f, include_self=False) if isinstance(r, ast.Return)]
-        ok = (len(rets) == 1 and isinstance(rets[0].value, ast.Call) and isinstance(rets[0].value.func, ast.Attribute) and rets[0].value.func.attr == "match"
-              and isinstance(rets[0].value.func.value, ast.Call) and dotted(rets[0].value.func.value.func) == "MatchesAllDict"
-              and any(isinstance(n, ast.DictComp) and "self.matcher_factories.items()" in norm(n) and "self._expected" in norm(n) for n in ast.walk(f)))
-        ctx.check("R-TRUTH-TABLE", "_CombinedMatcher: conjunction (MatchesAllDict) over every factory applied to the expected dict", f, ok,
-                  "_CombinedMatcher.match is no longer MatchesAllDict over all matcher_factories", construct=f"{cm[0].module.name}:_CombinedMatcher.match::all-factories")
+    check_truth_tables(ctx)
 
     # ------------------------------------------------------------------ dict factories
     want = {"MatchesDict": {"Extra", "Missing", "Differences"}, "ContainsDict": {"Missing", "Differences"}, "ContainedByDict": {"Extra", "Differences"}}
